@@ -2,6 +2,7 @@ package main
 
 import (
 	"encoding/json"
+	"regexp"
 	"fmt"
 	"os"
 	"path/filepath"
@@ -10,6 +11,8 @@ import (
 	"strings"
 	"time"
 )
+
+var obSuffixRe = regexp.MustCompile(`(@ret\d+|#\d+)`)
 
 type Baseline struct {
 	// property -> obligation name -> "unsat" | "undecided"
@@ -203,10 +206,18 @@ func cmdCheck(repo, verif, prop, tier string, timeout int, verbose bool) int {
 		}
 	}
 	// labelled obligations that were discharged on the pinned tree but are no longer generated
+	// (compared modulo the @retN / #N suffixes, which only number returns, call sites and back edges)
+	norm := func(n string) string { return obSuffixRe.ReplaceAllString(n, "") }
+	seenNorm := map[string]bool{}
+	for n := range seen {
+		seenNorm[norm(n)] = true
+	}
 	var missing []string
+	missNorm := map[string]bool{}
 	for name, st := range bp {
-		if st == "unsat" && !seen[name] && strings.Contains(name, "[C") {
-			missing = append(missing, name)
+		if st == "unsat" && !seen[name] && strings.Contains(name, "[C") && !seenNorm[norm(name)] && !missNorm[norm(name)] {
+			missNorm[norm(name)] = true
+			missing = append(missing, norm(name))
 		}
 	}
 	sort.Strings(missing)
@@ -217,6 +228,7 @@ func cmdCheck(repo, verif, prop, tier string, timeout int, verbose bool) int {
 	// known findings of this property: re-run witnesses
 	kfLines, kfNew := runKnownFindings(repo, verif, prop, known, tier)
 
+	boundedSummary, boundedFailing := runBounded(repo, verif, prop, tier)
 	wall := time.Since(t0).Seconds()
 	// report
 	os.MkdirAll(filepath.Join(verif, "replays", prop), 0o755)
@@ -249,6 +261,16 @@ func cmdCheck(repo, verif, prop, tier string, timeout int, verbose bool) int {
 		os.WriteFile(path, data, 0o644)
 		fmt.Printf("VIOLATION property=%s replay=%s obligation=%s result=scan-failed no-failing-input-found\n", prop, path, sr.Name)
 	}
+	for k, bf := range boundedFailing {
+		nviol++
+		path := filepath.Join(verif, "replays", prop, fmt.Sprintf("bounded_%d.json", k+1))
+		data, _ := json.MarshalIndent(map[string]interface{}{"property": prop, "kind": "bounded stand-in (not a proof obligation)", "failing_input": bf}, "", " ")
+		os.WriteFile(path, data, 0o644)
+		fmt.Printf("VIOLATION property=%s replay=%s bounded-stand-in %s\n", prop, path, trunc(bf, 300))
+		if k >= 4 {
+			break
+		}
+	}
 	for _, l := range kfNew {
 		nviol++
 		fmt.Println(l)
@@ -259,7 +281,7 @@ func cmdCheck(repo, verif, prop, tier string, timeout int, verbose bool) int {
 	for _, er := range pr.engineErrs {
 		fmt.Println("govc: engine: " + er)
 	}
-	writeEvidence(e, verif, pr, tier, seed, claimed, discharged, undecided, unbound, missing, bySolver, solverTime, wall, nviol, kfLines)
+	writeEvidence(e, verif, pr, tier, seed, claimed, discharged, undecided, unbound, missing, bySolver, solverTime, wall, nviol, kfLines, boundedSummary)
 	fmt.Printf("property %s: %d functions under contract, %d obligations claimed, %d discharged, %d undecided (not claimed), %d violations, %.1fs\n",
 		prop, len(pr.funcs), claimed, discharged, len(undecided), nviol, wall)
 	if nviol > 0 {
@@ -295,7 +317,7 @@ func writeReplay(verif, prop string, ob *Obligation, pr *propRun) string {
 	return path
 }
 
-func writeEvidence(e *Engine, verif string, pr *propRun, tier string, seed, claimed, discharged int, undecided, unbound, missing []string, bySolver map[string]int, solverTime, wall float64, nviol int, kf []string) {
+func writeEvidence(e *Engine, verif string, pr *propRun, tier string, seed, claimed, discharged int, undecided, unbound, missing []string, bySolver map[string]int, solverTime, wall float64, nviol int, kf []string, bounded []string) {
 	var samples []map[string]string
 	for _, ob := range pr.obs {
 		if len(samples) >= 6 {
@@ -364,6 +386,7 @@ func writeEvidence(e *Engine, verif string, pr *propRun, tier string, seed, clai
 			"undecided_not_claimed":    undecided,
 			"unbound":                  append(unbound, missing...),
 			"known_findings_reported":  kf,
+			"bounded_stand_ins":        bounded,
 			"contract_files":           e.cs.Files,
 			"explanation":              "obligations generated by weakest-precondition style symbolic execution of go/ssa of the real code against //@ contracts; each is an SMT query discharged only on unsat",
 		},
